@@ -608,10 +608,10 @@ pub fn check_state(p: &Props, ops: &[Op], info: &PlanInfo, obs: &Obs, last_only:
                     }
                     continue;
                 }
-                let exp = expected_runs(info, n.id, 4, 3);
+                let exp = expected_runs(info, n.id, 6, 5);
                 if runs[n.id] != exp {
                     let sig = if runs[n.id] < exp { "system-skipped" } else { "system-ran-too-often" };
-                    out.push(v("C04", sig, format!("system {} ran {} times after [dispatch_seq, dispatch_par, dispatch, dispatch_thread_local, RunNow::run_now], expected {}: {}", n.id, runs[n.id], exp, l.short())));
+                    out.push(v("C04", sig, format!("system {} ran {} times after [dispatch_seq, dispatch_par, dispatch, dispatch_thread_local, RunNow::run_now, dispatch on a second world, dispatch on the first world], expected {}: {}", n.id, runs[n.id], exp, l.short())));
                 }
             }
         }
